@@ -65,12 +65,18 @@ BadTimestamp == [msgs |-> [x \in {"9"} |-> "badts"]] @@ OkUnary
 \* and a probe whose messages need the resolver (well-known types inside an Any, converted JSON <-> binary)
 AuxJson == [msgs |-> [x \in {"1", "9"} |-> "wkt"]] @@ [OkUnary EXCEPT !.cl.path = "/verif.v1.Aux/Post"]
 OkAny == [msgs |-> [x \in {"1", "9"} |-> "wkt"]] @@ OkUnary
+\* a unary call to the other service (its backend speaks Connect: an un-enveloped backend, JSON to binary, a response the
+\* transcoder holds until the handler returns) whose handler answers FIRST and then meets an undecodable request; before
+\* it returns, another RPC runs on the same Transcoder.  Whatever the failed RPC still flushes when its handler returns
+\* must not land in a buffer it has given back (C14 / C15 PoolUseAfterPut)
+AuxLateFlush == [OkUnary EXCEPT !.cl.path = "/verif.v1.Aux/Post", !.cl.frames = <<[Frame(1, FALSE) EXCEPT !.fault = "undecodable"]>>,
+                                !.hd.writefirst = TRUE, !.hd.nestbig = TRUE]
 BackendPanic == [OkUnary EXCEPT !.hd.exit = "panic"]
 BackendError == [OkStreamGzip EXCEPT !.hd.end.code = 8, !.hd.errat = 0]
 BigResponse == [msgs |-> [x \in {"9"} |-> "size:5000"]] @@ OkUnary
 
 Kinds == {OkUnary, OkStreamGzip, RejectCodec, CutMid, Oversize, OversizeMeasure, CutMeasure, GzCorrupt, NotGzip, Undecodable,
-          BackendPanic, BackendError, BigResponse, CloseRace, DuplexFault, DuplexFaultJson, RespUndecodable, GetGzip, BadTimestamp, AuxJson, DuplexRecodeOversize}
+          BackendPanic, BackendError, BigResponse, CloseRace, DuplexFault, DuplexFaultJson, RespUndecodable, GetGzip, BadTimestamp, AuxJson, DuplexRecodeOversize, AuxLateFlush}
 Probes == {OkUnary, OkStreamGzip, OkRest, OkServerStream, GetGzip, OkAny}
 
 HInit == hist = <<>> /\ pr = OkUnary /\ hph = "grow" /\ Init
